@@ -418,7 +418,14 @@ func e2eRun(t *testing.T, r *vRand, p e2eParams) (term string, desc map[string]i
 		return left == 0 && len(insts) == 0, left
 	}
 	start := time.Now()
-	for time.Since(start) < p.deadline {
+	// The deadline stands for "never finishes".  On a heavily loaded machine a healthy run can simply be slow, so at
+	// the deadline the run continues as long as containers keep reaching a final state (at least one per window of
+	// deadline/5), up to three times the deadline.  A run that hangs makes no such progress and ends at the deadline.
+	lastLeft, lastProgress := -1, start
+	for {
+		if el := time.Since(start); el >= 3*p.deadline || (el >= p.deadline && time.Since(lastProgress) > p.deadline/5) {
+			break
+		}
 		for len(acts) > 0 && time.Since(start) >= acts[0].at {
 			a := acts[0]
 			acts = acts[1:]
@@ -448,8 +455,12 @@ func e2eRun(t *testing.T, r *vRand, p e2eParams) (term string, desc map[string]i
 				dmtx.Unlock()
 			}
 		}
-		if done, _ := allDone(); done && len(acts) == 0 {
+		done, leftNow := allDone()
+		if done && len(acts) == 0 {
 			break
+		}
+		if lastLeft < 0 || leftNow < lastLeft {
+			lastLeft, lastProgress = leftNow, time.Now()
 		}
 		time.Sleep(5 * time.Millisecond)
 	}
